@@ -196,6 +196,18 @@ def run(chk):
             chain.add_nn_dissipation(0, A, B, gamma=float(g))
             jterms.append((g, np.kron(A, B)))
         L = np.array(chain.get_nn_full_liouvillians()[0])
+        # the same generator handed over as matrices (add_nn_liouvillian / add_site_liouvillian add to what is stored)
+        chain2 = oqupy.SystemChain([dl, dr])
+        half = np.array(chain.nn_liouvillians[0]) / 2
+        chain2.add_nn_liouvillian(0, half)
+        chain2.add_nn_liouvillian(0, half)
+        sl = oqupy.System(herm_int(rng, dl)).liouvillian()
+        chain2.add_site_liouvillian(0, sl)
+        chain2.add_site_liouvillian(1, np.zeros((dr * dr, dr * dr)))
+        L2 = np.array(chain2.get_nn_full_liouvillians()[0])
+        if not np.array_equal(L2, L + np.kron(sl, np.eye(dr * dr))):
+            chk.fail("liouvillian-add", "SystemChain.add_nn_liouvillian / add_site_liouvillian: the two-site generator is not the sum of what was added",
+                     {"kind": "liouvillian", "api": "SystemChain.add_*_liouvillian", "d": [dl, dr]})
         # to the joint-space order (i_l i_r j_l j_r)
         Lj = L.reshape(dl, dl, dr, dr, dl, dl, dr, dr).transpose(0, 2, 1, 3, 4, 6, 5, 7).reshape(D * D, D * D)
         tl = coq_list([f"({zlit(g)}, {mat_lit(C)})" for g, C in jterms])
